@@ -27,8 +27,15 @@ def check_edit(op, nr, nc, count, start):
     sys.path.insert(0, os.path.dirname(os.path.dirname(os.path.abspath(__file__))))
     from bounded.c03_histories import run_case
     body = [op, count, start] + ([None] if op.startswith("add") else [])
-    case = {"shape": [nr, nc], "ops": [["write", r, c, f"v{r}{c}"] for r in range(nr) for c in range(nc)] + [body]}
-    r = run_case(case)
+    # the edit, growth in the other direction, then what the property says about saving: the saved file reopens to the same grid, and a further edit still works
+    case = {"shape": [nr, nc], "ops": [["write", r, c, f"v{r}{c}"] for r in range(nr) for c in range(nc)] + [body, ["add_column" if "row" in op else "add_row", 1, None, None], ["save"], ["write", 0, 0, "after"],
+                                      ["write", nr, nc + 1, "grown"], ["save"]]}
+    try:
+        r = run_case(case)
+    except Exception as e:  # noqa: BLE001
+        import traceback
+        tb = traceback.extract_tb(e.__traceback__)[-1]
+        r = {"detail": f"history {case['ops'][nr * nc:]} on a {nr}x{nc} table raised {type(e).__name__}: {e} ({tb.name}, line {tb.lineno})"}
     if r:
         return {"violated": True, "detail": r["detail"][:600], "op": body, "shape": [nr, nc]}
     return {"violated": False, "detail": "edit agrees with the plain grid"}
